@@ -200,6 +200,11 @@ func (s *orRuleSetLoader) makeTypeFromRuleSet(lex lexeme.LexEvent) {
 	c := s.nodeTypesListConstraint()
 	an := s.makeTypeASTNode(c.Source())
 
+	// The flags which say nothing ("const: false", "nullable: false") are
+	// dropped before the rule-set is looked at, not in the middle (CompileBasic
+	// drops them too): the same rule-set with and without them is the same type.
+	schemaCompiler{}.falseConstraints(s.typeRoot)
+
 	typeConstraint := s.typeRoot.Constraint(constraint.TypeConstraintType)
 	if typeConstraint != nil && s.typeRoot.NumberOfConstraints() == 1 {
 		typeValue := typeConstraint.(constraint.BytesKeeper).Bytes().Unquote()
